@@ -406,8 +406,10 @@ H_note0(r) ==
       [] r.kind = "resetres" ->
             \* ResSub.tla OneRefetch: a resource is never re-fetched while a re-fetch of it is outstanding
             Res([o EXCEPT !.refetch = Put(o.refetch, r.key, Get(o.refetch, r.key, 0) + 1)],
-                IF Get(o.refetch, r.key, 0) > 0 \/ \E x \in DOMAIN o.mqpend : o.mqpend[x].t = "get" /\ o.mqpend[x].key = r.key /\ o.mqpend[x].refetch
+                (IF Get(o.refetch, r.key, 0) > 0 \/ \E x \in DOMAIN o.mqpend : o.mqpend[x].t = "get" /\ o.mqpend[x].key = r.key /\ o.mqpend[x].refetch
                 THEN {V("C12", "re-fetch of " \o r.key \o " started while an earlier re-fetch is outstanding", "")} ELSE {})
+                \cup (IF "matched" \in DOMAIN r /\ ~r.matched
+                      THEN {V("C12", "re-fetch of " \o r.key \o " although no system reset lists a pattern matching its name", "")} ELSE {}))
       [] r.kind \in CENotes /\ ~o.hadStop /\ o.stop.l = 0 ->
             \* C09: the cache entry follows CacheEntry.tla in every critical section
             LET st == CEStep(Get(o.ce, r.n, CENew), r)
